@@ -10,6 +10,7 @@ import (
 	"os"
 	"strconv"
 	"strings"
+	"time"
 )
 
 func die(format string, a ...any) {
@@ -98,6 +99,10 @@ func main() {
 		cases := readLines(os.Args[3])
 		out := make([]string, len(cases))
 		for i, c := range cases {
+			if hung { // a case did not terminate: its goroutine still runs, stop here
+				out[i] = "SKIPPED-AFTER-TIMEOUT"
+				continue
+			}
 			out[i] = safeRun(s.run, c)
 		}
 		writeLines(os.Args[4], out)
@@ -122,12 +127,22 @@ func main() {
 }
 
 func safeRun(f func(string) string, c string) (out string) {
-	defer func() {
-		if r := recover(); r != nil {
-			out = "PANIC"
-		}
+	done := make(chan string, 1)
+	go func() {
+		defer func() {
+			if r := recover(); r != nil {
+				done <- "PANIC"
+			}
+		}()
+		done <- f(c)
 	}()
-	return f(c)
+	select {
+	case out = <-done:
+		return out
+	case <-time.After(caseTimeout):
+		hung = true
+		return "TIMEOUT"
+	}
 }
 
 func fields(line string) []string {
